@@ -132,7 +132,8 @@ def build_hidden(exe, rng, idx):
             for _ in range(rng.choice([0, 1, 1, 2])):
                 subs = []
                 for ty in [rng.choice([16, 17, 12, 7, 16, 17]) for _s in range(rng.randrange(1, 4))]:
-                    salt = bytes([rng.randrange(256) | 0x80, rng.randrange(256)])
+                    # (MS-MPPE keys keep the server's salt on their way through the proxy: whatever it is - also with the top bit clear)
+                    salt = bytes([rng.randrange(256), rng.randrange(256)])
                     ct = R.pwd_encrypt(R.rand_bytes(rng, rng.choice([16, 32, 48])), sv["secret"], fw[4:20], salt)
                     if rng.random() < 0.06:
                         ct = ct + b"x" * rng.randrange(1, 15)
